@@ -26,6 +26,8 @@ func init() {
 	ruleText["R11.5"] = "the frame captured by a closure value (the ancestor of the frames its calls create) is, on every path, the result of (*frame).clone taken when the closure value is created - also when the defining frame is the global frame"
 	ruleText["R11.6"] = "in (*Interpreter).gta every &symbol{kind: varSym, global: true} literal takes its index from a direct scope.add call, and in the funcDecl case no assignment targets the node field of a symbol (function symbols are installed as fresh literals)"
 	ruleText["R11.7"] = "in genGlobalVarDecl the condition that makes a variable wait for a dependency d tests d's membership in a set filled from every element of the node list being ordered (for _, n := range nodes { set[n] = true })"
+	ruleText["R11.8"] = "every assignment to Interpreter.name lies under a condition comparing the assigned value, or the field itself, with the empty string"
+	ruleText["R11.9"] = "while compDefineX identifies a redeclared variable by 'lookup level == identifier level', neither compDefineX nor the defineXStmt case of gta sets symbol.global (literal key or assignment)"
 	ruleText["R11.4"] = "each exported method of *Interpreter named Eval*/Compile*/Execute*/REPL reaches CompileAST, importSrc or Execute on the static call graph; gta, gtaRetry, cfg and genRun are called only from CompileAST, importSrc, Execute and the compile passes themselves"
 }
 
@@ -108,6 +110,8 @@ func runC11(c *Config, r *Report) {
 	closureFrameCloned(ic, r, "R11.5")
 	c11R6(ic, r)
 	c11R7(ic, r, "R11.7")
+	c11R8(ic, r)
+	c11R9(ic, r)
 }
 
 func c11R2(ic *IC, r *Report) {
@@ -641,4 +645,147 @@ func c11R7(ic *IC, r *Report, rule string) {
 	if nLoops == 0 {
 		r.Errorf("%s: the loop over a candidate's dependencies (range deps[n]) was not found in genGlobalVarDecl", rule)
 	}
+}
+
+// c11R8: the source name persists across evaluations. Relative imports and the imports of a
+// file are resolved against Interpreter.name (importSrc, rootFromSourceLocation); an
+// anonymous Eval that follows EvalPath must therefore leave the name alone. Every store to
+// Interpreter.name is guarded by an emptiness test of the new value or of the field itself.
+func c11R8(ic *IC, r *Report) {
+	nameFld := ic.field("Interpreter", "name")
+	if nameFld == nil {
+		r.Errorf("anchor not resolved: Interpreter.name")
+		return
+	}
+	info := ic.Info
+	n := 0
+	for _, fname := range sortedKeys(ic.F) {
+		fi := ic.F[fname]
+		if fi.Decl.Body == nil {
+			continue
+		}
+		k := 0
+		ast.Inspect(fi.Decl.Body, func(nd ast.Node) bool {
+			as, ok := nd.(*ast.AssignStmt)
+			if !ok {
+				return true
+			}
+			for i, l := range as.Lhs {
+				if selField(info, l) != nameFld {
+					continue
+				}
+				n++
+				k++
+				var rhs ast.Expr
+				if i < len(as.Rhs) {
+					rhs = as.Rhs[i]
+				}
+				guarded := false
+				for _, g := range pathGuards(fi.Decl.Body, as) {
+					ast.Inspect(g.cond, func(m ast.Node) bool {
+						be, ok := m.(*ast.BinaryExpr)
+						if !ok || (be.Op != token.EQL && be.Op != token.NEQ) {
+							return true
+						}
+						for _, side := range [][2]ast.Expr{{be.X, be.Y}, {be.Y, be.X}} {
+							if tv, ok := info.Types[side[1]]; ok && tv.Value != nil && tv.Value.ExactString() == `""` {
+								if selField(info, side[0]) == nameFld {
+									guarded = true
+								}
+								if rhs != nil && types.ExprString(side[0]) == types.ExprString(rhs) {
+									guarded = true
+								}
+							}
+						}
+						return true
+					})
+				}
+				r.Check(guarded, "R11.8", fmt.Sprintf("%s/source-name-store#%d/guarded", fname, k), ic.pos(as.Pos()), "the source name is replaced only by a non-empty name, or set when still empty",
+					"Interpreter.name is assigned unconditionally ("+types.ExprString(as.Lhs[i])+" = "+types.ExprString(rhs)+"): an anonymous Eval resets the file name recorded by EvalPath, and the later chunks no longer resolve that file's imports and relative imports (undefined: fmt), so piecewise evaluation differs from evaluating the file whole")
+			}
+			return true
+		})
+	}
+	if n == 0 {
+		r.Errorf("R11.8: no store to Interpreter.name found")
+	}
+}
+
+// c11R9: a multiple-value short declaration at interactive level may redeclare a variable of
+// an earlier chunk; compDefineX recognises "the same variable" by comparing the level
+// returned by scope.lookup with the level of the identifier, and scope.lookup reports the
+// global-frame level for symbols flagged global. The symbols compDefineX creates, and the
+// defineXStmt case of gta completes, must therefore not carry the global flag: with it the
+// redeclared variable silently becomes a new one and closures taken before keep the old one.
+func c11R9(ic *IC, r *Report) {
+	cdx := ic.fn(r, "compDefineX")
+	gta := ic.fn(r, "Interpreter.gta")
+	if cdx == nil || gta == nil {
+		return
+	}
+	globalFld := ic.field("symbol", "global")
+	symT, _ := ic.Pk.Types.Scope().Lookup("symbol").(*types.TypeName)
+	if globalFld == nil || symT == nil {
+		r.Errorf("anchor not resolved: symbol.global")
+		return
+	}
+	// the premise: compDefineX compares the lookup level with the identifier's level
+	premise := false
+	ast.Inspect(cdx.Decl.Body, func(n ast.Node) bool {
+		if be, ok := n.(*ast.BinaryExpr); ok && be.Op == token.EQL {
+			if id, ok := unparen(be.X).(*ast.Ident); ok && id.Name == "level" {
+				if se, ok := unparen(be.Y).(*ast.SelectorExpr); ok && se.Sel.Name == "level" {
+					premise = true
+				}
+			}
+		}
+		return true
+	})
+	if !premise {
+		r.Pass("R11.9", "compDefineX/var-symbols-not-global", ic.pos(cdx.Decl.Pos()), "compDefineX no longer identifies a redeclared variable by its lookup level: the rule does not apply")
+		return
+	}
+	var bad []string
+	scan := func(root ast.Node, where string) {
+		ast.Inspect(root, func(n ast.Node) bool {
+			switch x := n.(type) {
+			case *ast.CompositeLit:
+				if t := ic.Info.TypeOf(x); t != nil && types.Identical(t, symT.Type()) {
+					for _, e := range x.Elts {
+						if kv, ok := e.(*ast.KeyValueExpr); ok && types.ExprString(kv.Key) == "global" && types.ExprString(kv.Value) != "false" {
+							bad = append(bad, where+": symbol literal with global: "+types.ExprString(kv.Value)+" at "+ic.pos(kv.Pos()))
+						}
+					}
+				}
+			case *ast.AssignStmt:
+				for i, l := range x.Lhs {
+					if selField(ic.Info, l) == globalFld && (i >= len(x.Rhs) || types.ExprString(x.Rhs[i]) != "false") {
+						bad = append(bad, where+": "+types.ExprString(l)+" set at "+ic.pos(x.Pos()))
+					}
+				}
+			}
+			return true
+		})
+	}
+	scan(cdx.Decl.Body, "compDefineX")
+	found := false
+	ast.Inspect(gta.Decl.Body, func(n ast.Node) bool {
+		if cc, ok := n.(*ast.CaseClause); ok {
+			for _, e := range cc.List {
+				if id, ok := unparen(e).(*ast.Ident); ok && id.Name == "defineXStmt" {
+					found = true
+					for _, s := range cc.Body {
+						scan(s, "gta case defineXStmt")
+					}
+				}
+			}
+		}
+		return true
+	})
+	if !found {
+		r.Errorf("R11.9: the defineXStmt case of gta was not found")
+		return
+	}
+	r.Check(len(bad) == 0, "R11.9", "compDefineX/var-symbols-not-global", ic.pos(cdx.Decl.Pos()), "the variables of a multiple-value define are not flagged global",
+		strings.Join(bad, "; ")+": scope.lookup then reports the global-frame level for them and the 'same variable' test of compDefineX (lookup level == identifier level) fails, so `x, z := f()` fed after `x, y := f()` creates a second x and closures taken in between keep the first one")
 }
